@@ -663,3 +663,146 @@ Proof.
     apply (IH _ _ _ _ _ _ (Hm _ (proj1 (find_some _ _ Ef))) Hacc Er). }
   rewrite H in HP. exact HP.
 Qed.
+
+(* ---------- L_payout ---------- *)
+Lemma set_outcome_other F id out c : c <> id -> bfind (set_outcome F id out) c = bfind F c.
+Proof.
+  intro N. unfold set_outcome. destruct (bfind F id) as [f|]; [|reflexivity].
+  destruct (f_settled f); [reflexivity|]. apply bfind_bput_other. exact N.
+Qed.
+Lemma set_outcome_settled F id out f : bfind F id = Some f -> f_settled f = true -> set_outcome F id out = F.
+Proof. intros E S. unfold set_outcome. rewrite E, S. reflexivity. Qed.
+Lemma set_outcome_exact F id out f :
+  bfind F id = Some f -> f_settled f = false -> fund_dims_ok f = true -> outcome_fits f out = true ->
+  bfind (set_outcome F id out) id = Some (mkFund (f_assets f) out (f_dep f) true (f_wd f)).
+Proof.
+  intros E S Dm Fit. unfold set_outcome. rewrite E, S, Dm, Fit. cbn [andb]. apply bfind_bput_same.
+Qed.
+Lemma set_outcome_none F id out : bfind F id = None -> set_outcome F id out = F.
+Proof. intro E. unfold set_outcome. rewrite E. reflexivity. Qed.
+
+(* what a successful Conclude is *)
+Lemma conclude_step L p s subs L' evs :
+  step_res L (LConclude p s subs) = ROk (L', evs) ->
+  lp_ledger p = true /\ st_id s = lp_id p /\
+  exists D out, conclude_rec (S (length subs)) (l_clock L) (l_disp L) s subs = ROk (D, evs, out)
+    /\ l_disp L' = D /\ l_acc L' = l_acc L /\ l_clock L' = l_clock L
+    /\ l_funds L' = (if is_concluded (l_disp L) (lp_id p) then l_funds L
+                     else set_outcome (l_funds L) (lp_id p) out).
+Proof.
+  cbn [step_res]. intro H. guards. split_and.
+  match goal with X : bytes_eqb _ _ = true |- _ => apply bytes_eqb_eq in X end.
+  destruct (conclude_rec _ _ _ _ _) as [[[D evs'] out]|e]; cbn [rbind] in H; [|discriminate].
+  injection H as <- <-. repeat split; try assumption. exists D, out. repeat split.
+Qed.
+
+(* (a) the first conclusion of an exactly funded channel on (s, subs) turns its holdings into the recursive
+   outcome of (s, subs) *)
+Theorem L_payout_conclude L p s subs L' evs f :
+  step_res L (LConclude p s subs) = ROk (L', evs) ->
+  is_concluded (l_disp L) (lp_id p) = false ->
+  bfind (l_funds L) (lp_id p) = Some f -> f_settled f = false -> fund_dims_ok f = true ->
+  exists out, outcome_rec (S (length subs)) s subs = ROk out
+    /\ (outcome_fits f out = true ->
+        bfind (l_funds L') (lp_id p) = Some (mkFund (f_assets f) out (f_dep f) true (f_wd f))).
+Proof.
+  intros H Nc Ef Sf Dm. destruct (conclude_step _ _ _ _ _ _ H) as [_ [_ [D [out [Hc [_ [_ [_ HF]]]]]]]].
+  destruct (conclude_rec_spec _ _ _ _ _ _ _ _ Hc) as [_ [_ [_ [_ Ho]]]].
+  exists out. split; [exact Ho|]. intro Fit. rewrite HF, Nc. apply set_outcome_exact; assumption.
+Qed.
+
+(* (b) a successful withdrawal pays the participant's column of the holdings, per asset, to the account named
+   in the authorisation, empties the column and marks the participant; it needs the authorising signer to be
+   the participant, a concluded channel, and no earlier withdrawal of that participant *)
+Theorem L_payout_withdraw L p idx signer to L' evs :
+  step_res L (LWithdraw p idx signer to) = ROk (L', evs) ->
+  let i := N.to_nat idx in
+  exists f, bfind (l_funds L) (lp_id p) = Some f /\ f_settled f = true
+    /\ nth i (lp_parts p) 0 = signer /\ (i < length (lp_parts p))%nat /\ nth i (f_wd f) true = false
+    /\ (forall k, acc_get (l_acc L') k =
+          (acc_get (l_acc L) k
+           + (if N.eqb (fst k) to then sum_for (snd k) (combine (f_assets f) (col (f_hold f) i)) else 0))%Z)
+    /\ bfind (l_funds L') (lp_id p)
+       = Some (mkFund (f_assets f) (zero_col (f_hold f) i) (f_dep f) true (set_nth i true (f_wd f)))
+    /\ (forall c, c <> lp_id p -> bfind (l_funds L') c = bfind (l_funds L) c)
+    /\ l_disp L' = l_disp L /\ l_clock L' = l_clock L /\ evs = [].
+Proof.
+  cbn [step_res]. intro H. set (i := N.to_nat idx) in *.
+  destruct (bfind (l_funds L) (lp_id p)) as [f|] eqn:Ef; [|discriminate].
+  guards. injection H as <- <-. split_and.
+  exists f. split; [reflexivity|]. split; [exact G|].
+  split; [apply N.eqb_eq; exact G1|]. split; [apply Nat.ltb_lt; assumption|].
+  split; [apply negb_true_iff in G2; exact G2|].
+  cbn [with_acc_funds l_acc l_funds l_disp l_clock]. fold i. repeat split.
+  - intro k. apply credit_all_get.
+  - apply bfind_bput_same.
+  - intros c Hc. apply bfind_bput_other. exact Hc.
+Qed.
+
+(* (c),(d) once the outcome is set, the record of a channel changes only by successful withdrawals *)
+Theorem L_settled_step L o id f :
+  bfind (l_funds L) id = Some f -> f_settled f = true ->
+  bfind (l_funds (fst (step L o))) id = Some f
+  \/ exists p idx signer to evs, o = LWithdraw p idx signer to /\ lp_id p = id
+       /\ step_res L o = ROk (fst (step L o), evs).
+Proof.
+  intros Ef Sf. unfold step. destruct (step_res L o) as [[L' evs]|e] eqn:E; cbn [fst]; [|left; exact Ef].
+  destruct o.
+  - (* deposit *)
+    left. destruct (L_funding_exact _ _ _ _ _ _ _ _ E) as [_ [_ [[f' [Ef' [_ [_ [Sf' _]]]]] [Ho _]]]].
+    destruct (bytes_eqb id (lp_id p)) eqn:Ei.
+    + apply bytes_eqb_eq in Ei. subst id. exfalso.
+      cbn [step_res] in E. guards. rewrite Ef in G2. rewrite Sf in G2. discriminate.
+    + rewrite Ho; [exact Ef|]. apply bytes_eqb_false. exact Ei.
+  - left. cbn [step_res] in E. guards.
+    destruct (register_rec _ _ _ _ _ _) as [[[D evs'] o']|e']; cbn [rbind] in E; [|discriminate].
+    injection E as <- _. exact Ef.
+  - left. cbn [step_res] in E. destruct (bfind (l_disp L) (lp_id p)) as [d|]; [|discriminate].
+    guards. destruct (lp_app p); [|discriminate]. guards. injection E as <- _. exact Ef.
+  - left. destruct (conclude_step _ _ _ _ _ _ E) as [_ [_ [D [out [_ [_ [_ [_ HF]]]]]]]]. rewrite HF.
+    destruct (is_concluded (l_disp L) (lp_id p)); [exact Ef|].
+    destruct (bytes_eqb id (lp_id p)) eqn:Ei.
+    + apply bytes_eqb_eq in Ei. subst id. rewrite (set_outcome_settled _ _ _ _ Ef Sf). exact Ef.
+    + rewrite set_outcome_other; [exact Ef|]. apply bytes_eqb_false. exact Ei.
+  - left. cbn [step_res] in E. guards.
+    assert (X : forall out, bfind (set_outcome (l_funds L) (lp_id p) out) id = Some f).
+    { intro out. destruct (bytes_eqb id (lp_id p)) eqn:Ei.
+      - apply bytes_eqb_eq in Ei. subst id. rewrite (set_outcome_settled _ _ _ _ Ef Sf). exact Ef.
+      - rewrite set_outcome_other; [exact Ef|]. apply bytes_eqb_false. exact Ei. }
+    destruct (bfind (l_disp L) (lp_id p)) as [d|].
+    + destruct (dphase_eqb (d_phase d) DConcluded).
+      * guards. injection E as <- _. exact Ef.
+      * guards. injection E as <- _. cbn [l_funds]. apply X.
+    + guards. injection E as <- _. cbn [l_funds]. apply X.
+  - destruct (bytes_eqb id (lp_id p)) eqn:Ei.
+    + apply bytes_eqb_eq in Ei. right. exists p, idx, signer, to, evs. repeat split; auto.
+    + left. destruct (L_payout_withdraw _ _ _ _ _ _ _ E) as [f0 [_ [_ [_ [_ [_ [_ [_ [Ho _]]]]]]]]].
+      rewrite Ho; [exact Ef|]. apply bytes_eqb_false. exact Ei.
+  - left. cbn [step_res] in E. injection E as <- _. exact Ef.
+Qed.
+
+(* a participant withdraws once: the mark is never cleared, and a marked participant is refused *)
+Theorem L_withdraw_once L p idx signer to f :
+  bfind (l_funds L) (lp_id p) = Some f -> nth (N.to_nat idx) (f_wd f) true = true ->
+  exists e, step_res L (LWithdraw p idx signer to) = RErr e.
+Proof.
+  intros Ef W. cbn [step_res]. rewrite Ef.
+  destruct (f_settled f); cbn [guard rbind]; [|eauto].
+  destruct ((N.to_nat idx <? length (lp_parts p))%nat && (length (f_wd f) =? length (lp_parts p))%nat); cbn [guard rbind]; [|eauto].
+  destruct (nth (N.to_nat idx) (lp_parts p) 0 =? signer); cbn [guard rbind]; [|eauto].
+  rewrite W. cbn [negb guard rbind]. eauto.
+Qed.
+Lemma nth_set_nth_true i j l : nth j l true = true -> nth j (set_nth i true l) true = true.
+Proof.
+  revert i j; induction l as [|y l IH]; intros [|i] [|j] H; cbn [set_nth nth] in *; auto.
+Qed.
+Theorem L_withdrawn_stays L o id f i :
+  bfind (l_funds L) id = Some f -> f_settled f = true -> nth i (f_wd f) true = true ->
+  exists f', bfind (l_funds (fst (step L o))) id = Some f' /\ f_settled f' = true /\ nth i (f_wd f') true = true.
+Proof.
+  intros Ef Sf W. destruct (L_settled_step L o id f Ef Sf) as [H|[p [idx [signer [to [evs [-> [Hid H]]]]]]]].
+  - exists f. auto.
+  - destruct (L_payout_withdraw _ _ _ _ _ _ _ H) as [f0 [E0 [_ [_ [_ [_ [_ [E1 _]]]]]]]].
+    subst id. rewrite Ef in E0. injection E0 as <-. eexists. split; [exact E1|].
+    cbn [f_settled f_wd]. split; [reflexivity|]. apply nth_set_nth_true. exact W.
+Qed.
